@@ -52,7 +52,8 @@ CONSTANTS
     Weight,       \* priority weight per chunk (100 when a chunk is 1 MiB, 0 when tiny)
     FailStores,   \* BOOLEAN: may a source reader fail part-way
     Janitor,      \* BOOLEAN: are janitor cycles / expiry part of this configuration
-    UseClock      \* BOOLEAN: track LastAccess order (needed only where eviction order matters)
+    UseClock,     \* BOOLEAN: track LastAccess order (needed only where eviction order matters)
+    Blocking      \* BOOLEAN: may a call arrive while its shard is held (caller parks in Lock)
 
 Keys    == 1..NKeys
 Clients == 1..NClients
@@ -168,6 +169,7 @@ NewObj == CHOOSE i \in FreeObjs : \A j \in FreeObjs : i <= j
 
 \* a call on key k arrives while k's shard is held: the caller parks in Lock()
 Block(p, c) ==
+    /\ Blocking
     /\ pc[p] = "idle"
     /\ lock[ShardOf[c[2]]] # Free
     /\ c[1] = "store" => /\ nextVer[c[2]] <= MaxVer
